@@ -252,14 +252,17 @@ def build_items(t):
     k = 0
     for kind, e in L2 + [("rep", x) for x in R]:
         k += 1
-        if k % stride != seed() % stride:
-            continue
         ej = to_json(e)
+        # the simplifiers are cheap: every depth-2 sum / fraction in both tiers (a strided quick tier missed a seeded
+        # change of Sum.simplify that needs a conditional with two children)
         if isinstance(e, Fraction):
             items.append({"op": "fraction_simplify", "a": ej})
-            items.append({"op": "contract", "a": ej})
         if isinstance(e, Sum):
             items.append({"op": "sum_simplify", "a": ej})
+        if k % stride != seed() % stride:
+            continue
+        if isinstance(e, Fraction):
+            items.append({"op": "contract", "a": ej})
         items.append({"op": "recursive_contract", "a": ej})
     # nested fractions inside sums/products for recursive_contract and simplify
     for kind, e in L2:
@@ -294,7 +297,7 @@ def run() -> int:
         "y0.mutate.chain.chain_expand / fraction_expand / bayes_expand; y0.mutate.contract.contract / recursive_contract; mutate.utils.Applier",
     ]
     rep.bounds = {
-        "operands": "52 representative operands (27 leaves incl. value-marked, interventional, population-tagged, One, Zero; products, sums, nested sums, fractions incl. nested and constant ones, Q-factors): all ordered pairs for * and /; all range sets over A,B,C (+X) for marginalize/conditional; every depth-2 fraction/sum of the C10 family for simplify/contract (quick: every 3rd); every probability leaf with every ordering for chain_expand",
+        "operands": "52 representative operands (27 leaves incl. value-marked, interventional, population-tagged, One, Zero; products, sums, nested sums, fractions incl. nested and constant ones, Q-factors): all ordered pairs for * and /; all range sets over A,B,C (+X) for marginalize/conditional; every depth-2 fraction/sum of the C10 family for simplify; for contract (quick: every 3rd); every probability leaf with every ordering for chain_expand",
         "distributions": "free positive joints per (population, intervention assignment), binary variables; Q-factors as uninterpreted positive functions; all value assignments",
         "PYTHONHASHSEED": hashseed(),
     }
